@@ -698,3 +698,33 @@ class SymCfg:
         if t is None:
             raise Unsupported('abstract configuration: `in`')
         return CONFIGURED(t)
+
+
+# ---- message dict holding an arbitrary NUMBER of PDSxxxx keys (for _pds_to_de over any sub-element count) ------------
+class PdsMsg:
+    """dict whose keys are m 'PDS'+4-digit tags in arbitrary insertion order; sorted(keys) is the ascending list G['sorted'];
+    the value under the j-th smallest key is G['value'](j)"""
+
+    def __init__(self, G):
+        self.G = G
+
+    def truth(self, E):
+        return self.G['m'] > 0
+
+    def iter_keys_seq(self, E):
+        m = self.G['m']
+        U = z3.Function('PDS_UNSORTED_KEY', z3.IntSort(), z3.IntSort(), z3.IntSort())
+
+        def at(i):
+            items = [80, 68, 83] + [U(I(i), k) for k in range(4)]
+            for e in items[3:]:
+                E.fact(z3.And(e >= 48, e <= 57))
+            return seq_items('str', items)
+        s = VSeq('list', m, at)
+        s.tag = ('pdskeys', self.G)
+        return s
+
+    def get(self, E, ref, key, strict, default):
+        if isinstance(key, VSeq) and key.tag and key.tag[0] == 'pdskey':
+            return self.G['value'](key.tag[1])
+        raise Unsupported('PDS message: lookup of %r' % (key,))
